@@ -278,6 +278,26 @@ def run_check(pid, tier, seed, budget=None, max_runs=None, quiet=False,
             _child_run, make_arg, cfg["runs"], cfg["budget"], scratch,
             wall_cap_s=cfg["cap"])
         harness_errors += herrs
+        if hasattr(prop, "enumerated_cases"):
+            # a finite sub-space the property module enumerates completely
+            cases = prop.enumerated_cases(tier)
+
+            def make_arg2(i):
+                return {"pid": pid, "mode": "replay", "case": cases[i],
+                        "decisions": []}
+            res2, herrs2 = runner.fan_out(
+                _child_run, make_arg2, len(cases), cfg["budget"] * 2,
+                os.path.join(scratch, "enum"), wall_cap_s=cfg["cap"])
+            for r in res2:
+                r["_index"] += 10 ** 7
+                r["enumerated"] = True
+            if len(res2) != len(cases):
+                harness_errors.append(
+                    "enumeration incomplete: %d of %d cases ran" % (
+                        len(res2), len(cases)))
+            results += res2
+            harness_errors += herrs2
+            extra["enumerated_cases"] = len(cases)
     finally:
         shutil.rmtree(scratch, ignore_errors=True)
 
